@@ -562,16 +562,19 @@ Proof.
       * destruct (N.of_nat (length (s_cur (c_sh c) :: g)) =? q_n q); apply Hgo; split; reflexivity.
     + destruct (q_mode q) eqn:M.
       * rewrite (Hsingle _ eq_refl) in *. apply Hsame; [split; reflexivity|reflexivity].
-      * destruct g; apply Hsame; try reflexivity; split; reflexivity.
+      * apply Hsame; [split; reflexivity|reflexivity].
       * apply Hsame; [split; reflexivity|reflexivity].
   - (* the end of the source: raising the completed flag *)
     rewrite (istep_setf e c t q b g Hpc).
-    destruct (a_wf e L c A t) as (Hok & _ & _). unfold ipc_ok in Hok. rewrite Hpc in Hok. destruct Hok as (_ & _ & Hg). subst g.
-    assert (Hheld : held e (c_pool c t) = acc_iv e (c_pool c t) ++ [(b, N.of_nat 0)]) by (unfold held; rewrite Hpc; reflexivity).
-    destruct (q_mode q).
-    + apply led_finish_end with (X := [(b, N.of_nat 0)]); try assumption; try reflexivity. rewrite Hpc. reflexivity.
-    + apply led_silent; try assumption; [|reflexivity]. rewrite (held_crit _ _ b []) by (split; reflexivity). rewrite Hheld. reflexivity.
-    + apply led_silent; try assumption; [|reflexivity]. rewrite (held_crit _ _ b []) by (split; reflexivity). rewrite Hheld. reflexivity.
+    destruct (a_wf e L c A t) as (Hok & _ & _). unfold ipc_ok in Hok. rewrite Hpc in Hok. destruct Hok as (Hq & _ & Hlt).
+    assert (Hheld : held e (c_pool c t) = acc_iv e (c_pool c t) ++ [(b, N.of_nat (length g))]) by (unfold held; rewrite Hpc; reflexivity).
+    destruct (q_mode q) eqn:M.
+    + assert (g = []) as Hg0.
+      { destruct Hq as (_ & _ & H1). rewrite (H1 _ M) in Hlt. destruct g; [reflexivity|cbn [length] in Hlt; lia]. }
+      subst g.
+      apply led_finish_end with (X := [(b, N.of_nat 0)]); try assumption; try reflexivity. rewrite Hpc. reflexivity.
+    + apply led_silent; try assumption; [|reflexivity]. rewrite (held_crit _ _ b g) by (split; reflexivity). rewrite Hheld. reflexivity.
+    + apply led_silent; try assumption; [|reflexivity]. rewrite (held_crit _ _ b g) by (split; reflexivity). rewrite Hheld. reflexivity.
   - (* publishing: the pull returns *)
     destruct (pub_eq e Hk L c t q b g A Hpc Hw) as (Hb & Hq & Hcases).
     assert (Hheld : held e (c_pool c t) = acc_iv e (c_pool c t) ++ [(b, N.of_nat (length g))]) by (unfold held; rewrite Hpc; reflexivity).
